@@ -394,4 +394,33 @@ class AccessWords(object):
         mod = refir.finish_module({'name': 'TEST-MIB', 'decls': decls})
         return check_set([mod], ['TEST-MIB'], 'C04|access|%s|%s' % (case['kw'], case['w']), real=False)
 
-FAMILIES = [Sequences(), CrossModule(), Identifiers(), TypeChains(), Texts(), AccessWords()]
+
+class NoImportsClause(object):
+    name = 'no-imports-clause'
+    describe = ('a module WITHOUT an IMPORTS clause (types over INTEGER / OCTET STRING / OBJECT IDENTIFIER / BITS with refinements, '
+                'OID value declarations with fully numeric or iso-rooted parents): every subset of 5 such declarations; valid '
+                'Python, executes, the real MibBuilder loads it')
+    DECLS = [
+        {'k': 'type', 'name': 'SmallInt', 'syntax': ('simple', 'INTEGER', ('range', [(0, 5)]))},
+        {'k': 'type', 'name': 'ShortText', 'syntax': ('simple', 'OCTET STRING', ('size', [(0, 8)]))},
+        {'k': 'type', 'name': 'Switch', 'syntax': ('simple', 'INTEGER', ('enum', [('off', 0), ('on', 1)]))},
+        {'k': 'type', 'name': 'Flags', 'syntax': ('bits', [('a', 0), ('b', 1)])},
+        {'k': 'type', 'name': 'Pointer', 'syntax': ('simple', 'OBJECT IDENTIFIER')},
+    ]
+
+    def blocks(self, tier):
+        return [{}]
+
+    def cases(self, block, tier):
+        for r in range(0, 6):
+            for combo in itertools.combinations(range(5), r):
+                yield {'decls': list(combo)}
+
+    def run_case(self, case):
+        decls = [{'k': 'value', 'name': 'rootNode', 'oid': [1, 3, 6, 1, 4, 1, 4242]},
+                 {'k': 'value', 'name': 'leafNode', 'oid': ['rootNode', 1]}] + [self.DECLS[i] for i in case['decls']]
+        mod = {'name': 'TEST-MIB', 'imports': None, 'decls': decls}
+        names = '+'.join(self.DECLS[i]['name'] for i in case['decls']) or 'values-only'
+        return check_set([mod], ['TEST-MIB'], 'C04|no-imports|%s' % names)
+
+FAMILIES = [Sequences(), CrossModule(), Identifiers(), TypeChains(), Texts(), AccessWords(), NoImportsClause()]
